@@ -27,7 +27,9 @@ COQ = VERIF / "coq"
 THEORIES = COQ / "theories"
 GEN = COQ / "gen"
 BUILD = VERIF / "build"
-EVIDENCE = VERIF / "evidence"
+# evidence of runs against /repo goes to evidence/; runs against another tree (VERIF_REPO=..., seeded changes) must not
+# overwrite it: tools/seedtest.sh points VERIF_EVIDENCE to a scratch directory
+EVIDENCE = Path(os.environ.get("VERIF_EVIDENCE", VERIF / "evidence"))
 REPO = Path(os.environ.get("VERIF_REPO", "/repo")).resolve()
 PY = "/venv/bin/python"
 def _default_jobs():
@@ -221,7 +223,7 @@ def parse_props_output(out):
             res.append([])
         elif b.startswith("Axioms:"):
             names = re.findall(r"(?m)^([A-Za-z_][\w.']*)\s*:", b[len("Axioms:"):])
-            res.append(sorted(set(names)))
+            res.append(sorted(set(n for n in names if n not in ("Warning", "File", "Error"))))
     return res
 
 
@@ -471,46 +473,61 @@ class Ctx:
             self.obligations.append((t, True, a))
             self.axioms.update(a)
         if self.thorough and os.environ.get("VERIF_COQCHK", "1") != "0":
-            self.coqchk(props_file)
+            self.coqchk_start(props_file)
         prim = [a for a in self.axioms if a.split(".")[0] in ("PrimFloat", "PrimInt63", "FloatAxioms", "Uint63")]
         other = sorted(set(self.axioms) - set(prim))
         self.log(f"{props_file}: {len(printed)} theorems checked; axioms: {other or 'none (closed under the global context)'}"
                  + (f" + {len(prim)} primitive int/float operations and their specifications (used by the interval tactic)" if prim else ""))
         return True
 
-    def coqchk(self, props_file, timeout=1500):
+    def coqchk_start(self, props_file):
         """Thorough tier: re-check the compiled Props file and everything it depends on with the independent checker
-        coqchk and record the axioms it reports (`coqchk -o`).  A rejection is a broken proof obligation; running out of
-        time is recorded as such and is not a failure (the kernel's own check by coqc has already passed)."""
+        coqchk (`coqchk -o` also lists the axioms of every loaded library).  It runs beside the correspondence and is
+        collected in finish(): a rejection is a broken proof obligation; if it has not finished when the check is done
+        (libraries over the reals with Coquelicot/Interval/Flocq take 15-30 min) it is given until minute 13 of the run,
+        then stopped and recorded as `not finished` -- not a failure, coqc's kernel has already accepted the file.
+        `tools/coqchk_all.sh` runs the complete pass outside the per-property budget."""
         mod = "Typhon." + props_file[:-2].replace("/", ".")
-        t0 = time.time()
         try:
-            r = subprocess.run(["timeout", str(timeout), "coqchk", "-silent", "-o", *COQ_ARGS, mod],
-                               capture_output=True, text=True, cwd=str(COQ))
+            out = open(self.work / f"coqchk_{mod}.log", "w")
+            pr = subprocess.Popen(["nice", "-n", "5", "coqchk", "-silent", "-o", *COQ_ARGS, mod], stdout=out,
+                                  stderr=subprocess.STDOUT, cwd=str(COQ))
+            self._coqchk = getattr(self, "_coqchk", []) + [(pr, mod, time.time(), out)]
         except Exception as e:  # noqa
             self.notes.append(f"coqchk {mod}: not run ({e})")
-            return
-        out = r.stdout + r.stderr
-        if r.returncode == 124:
-            self.obligations.append((f"coqchk {mod}", True, f"timed out after {timeout}s (not a failure; coqc accepted the file)"))
-            return
-        if r.returncode != 0:
-            self.obligations.append((f"coqchk {mod}", False, out[-800:]))
-            self.failures.append(Failure("proof", f"coqchk rejects {mod}: {out[-600:]}", obligation=f"coqchk {mod}",
-                                         signature="coqchk"))
-            return
-        m = re.search(r"\* Axioms:(.*?)\n\s*\n\* Constants/Inductives relying on type-in-type:(.*?)\n\s*\n\* Constants/Inductives relying on unsafe"
-                      r".*?:(.*?)\n\s*\n\* Inductives whose positivity is assumed:(.*?)\n", out, re.S)
-        axioms = []
-        bad = ""
-        if m:
-            axioms = [a.strip() for a in m.group(1).split("\n") if a.strip() and a.strip() != "<none>"]
-            bad = " ".join(x.strip() for x in m.groups()[1:] if x.strip() != "<none>")
-        if bad:
-            self.failures.append(Failure("gate", f"coqchk reports disabled checks in {mod}: {bad}", obligation=f"coqchk {mod}",
-                                         signature="coqchk-unsafe"))
-        self.obligations.append((f"coqchk {mod}", not bad, {"wall_s": round(time.time() - t0, 1), "axioms_of_all_loaded_libraries": axioms}))
-        self.log(f"coqchk {mod}: ok in {time.time()-t0:.0f}s, {len(axioms)} axioms in the loaded libraries")
+
+    def coqchk_collect(self, budget_s=780):
+        for pr, mod, t0, out in getattr(self, "_coqchk", []):
+            left = max(5, budget_s - (time.time() - self.t0))
+            try:
+                rc = pr.wait(timeout=left)
+            except subprocess.TimeoutExpired:
+                pr.kill()
+                pr.wait()
+                out.close()
+                self.obligations.append((f"coqchk {mod}", True, f"not finished after {time.time()-t0:.0f}s, stopped (not a failure; "
+                                         "coqc accepted the file; see tools/coqchk_all.sh)"))
+                continue
+            out.close()
+            text = (self.work / f"coqchk_{mod}.log").read_text()
+            if rc != 0:
+                self.obligations.append((f"coqchk {mod}", False, text[-800:]))
+                self.failures.append(Failure("proof", f"coqchk rejects {mod}: {text[-600:]}", obligation=f"coqchk {mod}",
+                                             signature="coqchk"))
+                continue
+            m = re.search(r"\* Axioms:(.*?)\n\s*\n\* Constants/Inductives relying on type-in-type:(.*?)\n\s*\n\* Constants/Inductives relying on unsafe"
+                          r".*?:(.*?)\n\s*\n\* Inductives whose positivity is assumed:(.*?)\n", text, re.S)
+            axioms, bad = [], ""
+            if m:
+                axioms = [a.strip() for a in m.group(1).split("\n") if a.strip() and a.strip() != "<none>"]
+                bad = " ".join(x.strip() for x in m.groups()[1:] if x.strip() != "<none>")
+            if bad:
+                self.failures.append(Failure("gate", f"coqchk reports disabled checks in {mod}: {bad}", obligation=f"coqchk {mod}",
+                                             signature="coqchk-unsafe"))
+            self.obligations.append((f"coqchk {mod}", not bad, {"wall_s": round(time.time() - t0, 1),
+                                                                 "axioms_of_all_loaded_libraries": axioms}))
+            self.log(f"coqchk {mod}: ok in {time.time()-t0:.0f}s, {len(axioms)} axioms in the loaded libraries")
+        self._coqchk = []
 
     def add_obligation(self, name, ok, note=""):
         self.obligations.append((name, bool(ok), note))
@@ -527,6 +544,7 @@ class Ctx:
 
     # ---- finish
     def finish(self, trusted_base=(), level="proof", checker_cmd=None, extra_cov=None):
+        self.coqchk_collect()
         known = [k for k in load_known() if k.get("property") == self.prop and k.get("status") == "open"]
         replay_dir = BUILD / "replay"
         replay_dir.mkdir(parents=True, exist_ok=True)
